@@ -681,6 +681,13 @@ func subReplay(in io.Reader, raw bool, args []string) (*Summary, error) {
 			if ug, ok := s.Underlying().(graph.IntGraph); !ok || !reflect.DeepEqual([][]int(ug), [][]int(g)) {
 				sum.viol("Subgraph", c, "%s: Underlying is not the original graph", kind)
 			}
+			// the request slices belong to the caller, who may reuse them at once: from here on they hold other data
+			for i := range nodes {
+				nodes[i] = (nodes[i]*5 + 3) % (len(sc.Adj) + 1)
+			}
+			for i := range edges {
+				edges[i] = graph.Edge{Node: -1 - i, Edge: 99}
+			}
 			nm := s.NodeMap(func(n int) interface{} { return n*7 + 1 })
 			em := s.EdgeMap(func(n, e int) interface{} { return n*1000 + e })
 			for i, rn := range rq.Res {
